@@ -38,6 +38,20 @@ const (
 
 var faultNames = []string{"none", "drop", "dup", "delay", "break", "dup-late", "delay2"}
 
+// Fault positions: the replica of this tree reads one message per connection and reconnects, so positions are
+// (connection ordinal, message index on that connection) for the first faultConns connections and faultMsgs messages.
+const (
+	faultConns = 4
+	faultMsgs  = 3
+)
+
+func faultPos(conn, msg int) int {
+	if conn >= faultConns || msg >= faultMsgs {
+		return -1
+	}
+	return conn*faultMsgs + msg
+}
+
 type heldMsg struct {
 	m   *rp.WALStreamResponse
 	due int // delivered after this many further delivered messages
@@ -45,7 +59,7 @@ type heldMsg struct {
 
 type repLink struct {
 	p       *replication.Primary
-	faults  map[int]int // send index -> fault
+	faults  map[int]int // fault position (faultPos: connection ordinal, message index on it) -> fault
 	sends   int
 	window  int
 	streams []*memStream
@@ -67,6 +81,8 @@ type memStream struct {
 	err    error
 	held   []heldMsg
 	broken bool
+	ord    int // ordinal of this stream on the link
+	nsent  int // messages the primary sent on it
 }
 
 // ---- server side ----
@@ -89,9 +105,13 @@ func (s *memStream) Send(m *rp.WALStreamResponse) error {
 	l := s.link
 	idx := l.sends
 	l.sends++
-	f := l.faults[idx]
+	f := fNone
+	if pos := faultPos(s.ord, s.nsent); pos >= 0 {
+		f = l.faults[pos]
+	}
+	s.nsent++
 	c := proto.Clone(m).(*rp.WALStreamResponse) // gRPC marshals: the receiver never shares memory with the sender
-	l.logf("send#%d %s seqs=%v", idx, faultNames[f], seqsOf(m))
+	l.logf("send#%d c%d.m%d %s seqs=%v", idx, s.ord, s.nsent-1, faultNames[f], seqsOf(m))
 	put := func(x *rp.WALStreamResponse) { vsched.Send(s.ch, x) }
 	hold := func(x *rp.WALStreamResponse, due int) { s.held = append(s.held, heldMsg{x, due}) }
 	// messages held back become due as later messages are delivered; they go out behind the message that released them
@@ -202,7 +222,7 @@ func (c *memClient) StreamWAL(ctx context.Context, in *rp.WALStreamRequest, opts
 	if w == 0 {
 		w = 64
 	}
-	s := &memStream{link: c.link, ch: make(chan *rp.WALStreamResponse, w), hdr: make(chan metadata.MD, 1), ctx: sctx, cancel: cancel, done: make(chan struct{})}
+	s := &memStream{link: c.link, ch: make(chan *rp.WALStreamResponse, w), hdr: make(chan metadata.MD, 1), ctx: sctx, cancel: cancel, done: make(chan struct{}), ord: len(c.link.streams)}
 	c.link.streams = append(c.link.streams, s)
 	c.link.logf("StreamWAL start=%d", in.StartSequence)
 	req := proto.Clone(in).(*rp.WALStreamRequest)
